@@ -126,6 +126,14 @@ def run(tier, seed, lean):
         kinds = {r[0] for r in refs}
         if len(kinds) >= 3:
             nontrivial += 1
+        # no exception other than the one the inline Python raises on purpose may escape, also from calls whose result
+        # contains objects of a nested parse
+        for ri, r in enumerate(refs):
+            if r[0] == 'X' and r[1] != 'Boom':
+                entry, text, pos, full = history[ri]
+                violations.append({'key': f'escape|{r[1]}|{text}', 'sig': f'escape|{r[1]}', 'kind': 'spec', 'seed': seed,
+                                   'what': f'{entry}.parse({text!r}, {pos}, {full}) on a fresh module raises {r[1]}: {r[2]} '
+                                           f'(the inline Python of this grammar raises nothing but Boom)'})
         # the history on one module, with other grammars compiled in between and texts freed as we go
         got = []
         for i, (entry, text, pos, full) in enumerate(history):
